@@ -1041,6 +1041,15 @@ def gen_case(rng, focus, nops=None):
         break
     else:
         raise RuntimeError('no compatible configuration found')
+    bare = focus in ('C01', 'C02', 'C05', 'C06', 'C07', 'C15') and rng.random() < 0.06
+    if bare:
+        # bare keys: a lone positional of a plain type is its own key under the flat raw keymap - so the cache's
+        # keys are None, 0, '', (), False ...: values that internal markers and truth tests are easily confused with
+        sig = '*args'
+        km = {'cls': 'keymap', 'type': None, 'flat': True, 'typed': False, 'sentinel': False}
+        kk = 'raw'
+        if not gen.backend_accepts(b, kk, km):
+            b = {'kind': 'dict_archive'}
     algo = rng.choice(ALGOS if focus not in ('C06',) else list(BOUNDED))
     if focus in ('C05', 'C06', 'C07') and rng.random() < 0.7:
         algo = rng.choice(BOUNDED)
@@ -1075,7 +1084,9 @@ def gen_case(rng, focus, nops=None):
     if algo not in BOUNDED:
         cfg['maxsize'] = 0 if algo == 'no' else None
     universe = list(gen.UNIVERSE)
-    if rng.random() < 0.3:
+    if bare:
+        universe = [None, 0, '', (), 1, 'a', 2, 'b', 3, 2.5, -1, 'x']
+    if rng.random() < 0.3 and not bare:
         # text that is canonically equivalent (NFC == NFC) but not equal: different arguments
         universe += [u'caf\u00e9', u'cafe\u0301']
         if rng.random() < 0.5:
